@@ -51,6 +51,13 @@ class ExprMixin:
             return FuncV("ext", dotted="builtins." + name)
         if name in BUILTIN_EXC:
             return FuncV("ext", dotted="builtins." + name)
+        fr = frame
+        while fr is not None and fr.func is None:
+            fr = fr.parent
+        if fr is not None and fr.func is not None:
+            for n in ast.walk(fr.func.node):
+                if isinstance(n, ast.Name) and n.id == name and isinstance(n.ctx, ast.Store):
+                    raise RaiseSignal("UnboundLocalError", "local variable %r referenced before assignment" % name, node, frame)
         raise Unmodelled("unresolved name %r at %s" % (name, frame.loc(node)))
 
     def wrap_resolved(self, r, frame):
